@@ -154,6 +154,8 @@ def main():
         run = run_shard(mod, tier, seed, 0, 1)
     else:
         run = core.Run(mod.PROP, mod.LEVEL, mod.RULE, tier=tier, seed=seed, assumptions=getattr(mod, 'ASSUMPTIONS', ()))
+        if os.environ.get('VERIF_TMP'):
+            os.makedirs(os.environ['VERIF_TMP'], exist_ok=True)
         work = tempfile.mkdtemp(prefix='kvrun_', dir=os.environ.get('VERIF_TMP'))
         try:
             procs = []
